@@ -14,6 +14,22 @@ pub mod c05;
 #[cfg(kani)]
 pub mod types;
 #[cfg(kani)]
+pub mod c06;
+#[cfg(kani)]
+pub mod c06_gen;
+#[cfg(kani)]
+pub mod c03;
+#[cfg(kani)]
+pub mod c04;
+#[cfg(all(kani, feature = "half"))]
+pub mod c02;
+#[cfg(all(kani, feature = "half"))]
+pub mod c12;
+#[cfg(all(kani, feature = "half"))]
+pub mod c11;
+#[cfg(all(kani, feature = "half"))]
+pub mod c11_gen;
+#[cfg(kani)]
 pub mod zz;
 #[cfg(kani)]
 mod replay;
